@@ -146,6 +146,7 @@ class RFC8323Remote:
                     self._remote_settings["block-wise-transfer"] = True
                 elif opt.number.is_critical():
                     self.abort("Option not supported", bad_csm_option=opt.number)
+                    return
                 else:
                     pass  # ignoring elective CSM options
         elif msg.code in (PING, PONG, RELEASE, ABORT):
@@ -153,6 +154,7 @@ class RFC8323Remote:
             for opt in msg.opt.option_list():
                 if opt.number.is_critical():
                     self.abort("Unknown critical option")
+                    return
                 else:
                     pass
 
